@@ -109,6 +109,25 @@ def glob(x: FLOAT[3]) -> FLOAT[3]:
     w = sub(y, scale=4.0) * K
     return w + op.Cast(op.Constant(value_ints=L), to=1)
 ''',
+    # functions WITHOUT a node of the standard domain: the model's standard opset import is computed by
+    # to_model_proto (from the called function / from opset_version=), it is not recorded in the function
+    "c14s_outer": '''
+from onnxscript import script, FLOAT, values
+from onnxscript import opset18 as op
+inner_domain = values.Opset("c14.inner", 1)
+
+@script(inner_domain)
+def inner(x):
+    return op.Relu(x)
+
+@script()
+def outer(x: FLOAT[3]) -> FLOAT[3]:
+    return inner(x)
+
+@script(default_opset=op)
+def only_custom(x: FLOAT[3]) -> FLOAT[3]:
+    return inner_domain.Foo(x)
+''',
     # refused inside an if-branch nested in a loop, after nodes were emitted and scopes were opened
     "c14s_bad1": '''
 from onnxscript import script, INT64
@@ -142,8 +161,8 @@ def bad2(a: INT64) -> INT64:
 
 # alphabet of operations (names are the ones spec/History.tla uses)
 OPS = [
-    "TrCtl", "TrGlob", "TrBad1", "TrBad2", "ProtoGlob", "MutGlob",
-    "OptA", "OptB", "OptRaise", "RwX", "RwY", "RwCheckRaise", "RwRewriteRaise",
+    "TrCtl", "TrGlob", "TrBad1", "TrBad2", "ProtoGlob", "MutGlob", "ProtoOuter17", "ProtoOuter19",
+    "OptOld", "OptNew", "OptA", "OptB", "OptRaise", "RwX", "RwY", "RwCheckRaise", "RwRewriteRaise",
     "FoldA", "FoldNoop", "FoldRaise", "PatOk", "PatFree", "PatRaiseDefault", "PatRaiseCustom", "PmMatch",
     "ConvA", "ConvRaise", "ModBuild", "EvRaise",
 ]
@@ -427,6 +446,28 @@ def model_noop():
     return _mk([oh.make_node("Add", ["x", "x"], ["t"]), oh.make_node("Relu", ["t"], ["o"])], [_vi("x", ["N", 3])], [_vi("o", ["N", 3])])
 
 
+def model_reduce(opset):
+    """a version-split operator folded through the generic reference-evaluator path: ReduceSum / Unsqueeze take their
+    axes as an attribute up to opset 12 and as an input from opset 13"""
+    import numpy as np
+    from onnx import helper as oh
+
+    c = _init("c", np.arange(6 if opset >= 13 else 8, dtype=np.float32).reshape(2, -1))
+    n = 3 if opset >= 13 else 4
+    if opset >= 13:
+        nodes = [oh.make_node("ReduceSum", ["c", "axes"], ["s"], keepdims=0),
+                 oh.make_node("Unsqueeze", ["s", "axes"], ["u"])]
+        inits = [c, _init("axes", np.array([0], np.int64))]
+    else:
+        nodes = [oh.make_node("ReduceSum", ["c"], ["s"], axes=[0], keepdims=0),
+                 oh.make_node("Unsqueeze", ["s"], ["u"], axes=[0])]
+        inits = [c]
+    nodes.append(oh.make_node("Add", ["x", "u"], ["y"]))
+    m = _mk(nodes, [_vi("x", [n])], [_vi("y", [1, n])], inits, opset=opset)
+    m.ir_version = 7 if opset >= 13 else 6
+    return m
+
+
 def model_muladd():
     from onnx import helper as oh
 
@@ -645,6 +686,46 @@ def op_MutGlob(P):
     return b"ok"
 
 
+def _outer(P):
+    if "c14s_outer" not in P.mods:
+        _load_script(P, "c14s_outer")
+    return P.mods["c14s_outer"]
+
+
+def _proto_outer(P, version):
+    m = _outer(P)
+    _ev(P, "ensured")
+    _ev(P, "toproto_pure", "outer")
+    a = _protos(P, m.outer)                          # function proto before/after model proto, model proto three times
+    _ev(P, "toproto_ver", str(version))
+    g0 = _ser(m.only_custom.to_function_proto())
+    b = _ser(m.only_custom.to_model_proto(opset_version=version))
+    g1 = _ser(m.only_custom.to_function_proto())
+    if g0 != g1:
+        P.flags["not_idempotent"] = f"only_custom: to_function_proto() {_sha(g0)} before, {_sha(g1)} after to_model_proto(opset_version={version})"
+    return a + b"|" + b + b"|" + g1
+
+
+def op_ProtoOuter17(P):
+    return _proto_outer(P, 17)
+
+
+def op_ProtoOuter19(P):
+    return _proto_outer(P, 19)
+
+
+def op_OptOld(P):
+    import onnxscript.optimizer
+
+    return _ser(onnxscript.optimizer.optimize(model_reduce(11)))
+
+
+def op_OptNew(P):
+    import onnxscript.optimizer
+
+    return _ser(onnxscript.optimizer.optimize(model_reduce(13)))
+
+
 def op_OptA(P):
     import onnxscript.optimizer
 
@@ -830,6 +911,7 @@ def _scan():
     """fingerprint of every module-level global and class-level container of the onnxscript package (minus
     the generated opset classes): name -> cheap fingerprint.  Used to detect persistent state the spec does
     not model."""
+    import logging
     import types
 
     out = {}
@@ -852,9 +934,12 @@ def _scan():
                 out[f"{mname}.{k}"] = (id(v), len(v))
             elif isinstance(v, (int, float, str, bool, type(None))):
                 out[f"{mname}.{k}"] = v
+            elif isinstance(v, logging.Logger):
+                continue                     # a logger's level cache is not program state
             else:
                 d = getattr(v, "__dict__", None)
-                out[f"{mname}.{k}"] = (id(v), len(d) if isinstance(d, dict) else -1)
+                sizes = tuple(sorted((a, len(x)) for a, x in d.items() if isinstance(x, (dict, list, set)))) if isinstance(d, dict) else ()
+                out[f"{mname}.{k}"] = (id(v), len(d) if isinstance(d, dict) else -1, sizes)
     return out
 
 
@@ -890,6 +975,7 @@ def snapshot(P: _Proc) -> dict:
     snap["evalDefault"] = "ort" if evaluator.default() is evaluator.ort_evaluator else "other"
     snap["realized"] = sorted(n for n, p in S["NET"].named_parameters() if p._realized)
     g = P.mods.get("c14s_glob")
+    snap["decoratedOuter"] = "c14s_outer" in P.mods
     snap["decorated"] = g is not None
     snap["globalsMutated"] = bool(g is not None and g.K != 3)
     now = _scan()
@@ -973,6 +1059,16 @@ def instrument(P: _Proc):
 
     _constant_folding.FoldConstantsPass._reset = _reset
     _constant_folding.FoldConstantsPass.call = call
+
+    orig_get = _constant_folding.ReferenceEvaluator.get_evaluator
+
+    def get_evaluator(self, domain, op, version):
+        e = ["refop", op if not domain else f"{domain}::{op}", str(version)]
+        if e not in ev:
+            ev.append(e)
+        return orig_get(self, domain, op, version)
+
+    _constant_folding.ReferenceEvaluator.get_evaluator = get_evaluator
 
     orig_pb = _pattern_ir.pattern_builder
 
@@ -1244,7 +1340,7 @@ def normalise_events(op, raw, solo):
     the pattern not yet compiled)"""
     out = []
     marker = None
-    if solo and op in ("ProtoGlob", "MutGlob"):
+    if solo and op in ("ProtoGlob", "MutGlob", "ProtoOuter17", "ProtoOuter19"):
         marker = next((i for i, e in enumerate(raw) if e[0] == "ensured"), None)
     if solo and op == "PmMatch":
         marker = next((i for i, e in enumerate(raw) if e[0] == "pm_match"), None)
@@ -1272,7 +1368,7 @@ def normalise_events(op, raw, solo):
             if len(e) > 2:
                 rec["b"] = str(e[2])
         if marker is not None and i < marker:
-            rec["cond"] = "undecorated" if op in ("ProtoGlob", "MutGlob") else "uncompiled"
+            rec["cond"] = "undecorated" if op in ("ProtoGlob", "MutGlob") else "noouter" if op.startswith("ProtoOuter") else "uncompiled"
         out.append(rec)
     return out
 
@@ -1337,6 +1433,8 @@ def snap_mismatch(model, real):
         diffs.append(f"realized parameters model={sorted(model['realized'])} real={real['realized']}")
     if model["decorated"] != real["decorated"] or bool(model["gver"]) != real["globalsMutated"]:
         diffs.append(f"script module model=(decorated {model['decorated']}, mutated {model['gver']}) real=({real['decorated']}, {real['globalsMutated']})")
+    if model["odec"] != real["decoratedOuter"]:
+        diffs.append(f"second script module decorated model={model['odec']} real={real['decoratedOuter']}")
     if real["unmodelled"]:
         diffs.append(f"persistent state the spec does not model changed: {real['unmodelled']}")
     return diffs
@@ -1360,7 +1458,7 @@ def run(ctx: core.Ctx):
     def design_runs(cfgs):
         return [(cfg, core.run_tlc("History", cfg, timeout=1500, workers=4 if ctx.quick else 8)) for cfg in cfgs]
 
-    design_cfgs = [["History_design.cfg", "History_vacuity.cfg"], ["History_impl.cfg", "History_vacuity_seed.cfg"]]
+    design_cfgs = [["History_design.cfg", "History_vacuity.cfg"], ["History_impl.cfg", "History_vacuity_seed.cfg", "History_vacuity_regr.cfg"]]
     if not ctx.quick:
         design_cfgs += [["History_design_thorough.cfg"], ["History_design3.cfg"]]
 
@@ -1476,6 +1574,11 @@ def run(ctx: core.Ctx):
             devs = [c for c in cs if dev(c)][:300]
             rest = sorted([c for c in cs if not dev(c)], key=flows, reverse=True)
             cs = devs + rest[:1000] + rng.sample(rest[1000:], min(400, len(rest[1000:])))
+        elif len(cs) > 16000:      # all triples of the full alphabet: every one that has a flow or a predicted difference, the rest sampled
+            hot = [c for c in cs if dev(c) or flows(c)]
+            cold = [c for c in cs if not (dev(c) or flows(c))]
+            hot = hot if len(hot) <= 16000 else sorted(hot, key=flows, reverse=True)[:16000]
+            cs = hot + rng.sample(cold, min(len(cold), max(0, 16000 - len(hot))))
         selected += [(c, "one") for c in cs]
     ctx.set("spec_histories", len(allcases))
     ctx.set("replayed_histories", len(selected))
